@@ -65,6 +65,10 @@ def catalogue(tier: str):
     add('prevb-f2-ra0', 'prevb', 2, scheduling={'runahead limit': 'P0'})
     add('custom-f1', 'custom', 1)
     add('chain2-f2-holdcp1', 'chain2', 2, options={'holdcp': '1'})
+    # a task removed and respawned by its other parent: it then carries an
+    # unsatisfied prerequisite whose upstream output is in the database
+    add('and-f1-remove-c', 'and', 1,
+        helpers=[('remove_tasks', {'tasks': ['1/c'], 'flow': []})])
     if tier == 'thorough':
         add('prevb-f2', 'prevb', 2)
         add('chain2-f2', 'chain2', 2)
